@@ -556,7 +556,7 @@ TargetDir(e) == IF e.cmd = "import-seg" THEN (IF e.osel = "default" THEN "" ELSE
                 ELSE IF e.osel \in {"sub", "deep"} THEN OutDir(e.osel) ELSE ""
 ExplicitNames(e, meta) == {OutFiles(e, meta)[k].name : k \in 1..Len(OutFiles(e, meta))}
 Done(e, meta, o) == DocErr(e, meta) = "" /\ o.liberr = "" /\ o.err = ""
-ClausesOf(e) == {"completes", "error_equals_library", "rejects_documented_error", "out_at_explicit_path", "out_equals_library",
+ClausesOf(e) == {"completes", "library_refusal_not_hidden", "rejects_documented_error", "out_at_explicit_path", "out_equals_library",
                  "inputs_untouched"}
                 \cup (IF e.cmd \in Reporting THEN {"default_to_stdout"} ELSE {})
                 \cup (IF DocExt(e.cmd) # "" THEN {"default_name_ext"} ELSE {})
@@ -569,12 +569,14 @@ Holds(c, pre, meta, e, o) ==
             (* with a file name): "If the path includes directories that don't exist yet, create them";   *)
             (* `access` lets argparse open -o (FileType), nothing is promised there.                      *)
             (DocErr(e, meta) = "" /\ o.liberr = "" /\ (DirExists(meta, TargetDir(e)) \/ e.cmd # "access")) => o.err = ""
-      [] c = "error_equals_library" ->
-            (* the wrapper adds no error handling of its own: a refusal of the library is the command's   *)
-            (DocErr(e, meta) = "" /\ o.liberr # "") => o.err = o.liberr
+      [] c = "library_refusal_not_hidden" ->
+            (* what the library function refuses, the command does not report as done (which exception it  *)
+            (* ends with is not documented: A-layer)                                                       *)
+            (DocErr(e, meta) = "" /\ o.liberr # "") => (o.err # "" /\ (Explicit(e) /\ e.cmd # "import-seg" => e.oname \notin o.w))
       [] c = "rejects_documented_error" ->
-            (* the error messages quoted at DocErr *)
-            DocErr(e, meta) # "" => (o.err = DocErr(e, meta) /\ o.w = {})
+            (* the error messages quoted at DocErr: the command fails and writes nothing (the exception    *)
+            (* class is not documented: A-layer)                                                           *)
+            DocErr(e, meta) # "" => (o.err # "" /\ o.w = {})
       [] c = "out_at_explicit_path" ->
             (* "-o FILENAME  Output file name." / "-d DIRECTORY  Output directory name." *)
             (Done(e, meta, o) /\ Explicit(e) /\ Produces(e)) =>
